@@ -1,6 +1,7 @@
 package main
 
 import (
+	"golang.org/x/tools/go/packages"
 	"regexp"
 	"fmt"
 	"go/ast"
@@ -98,14 +99,22 @@ func runC07(c *Ctx) {
 // (bits.Len64(leafIndex ^ lastLeafIndex)). The v1 verifier decides this with one condition inside its loop;
 // the condition only compares (bit i, i vs subtreeHeight), so it is evaluated over all 6 orderings.
 func c07ProofRootOrder(c *Ctx) {
-	pkg := c.P.Pkg("consensus")
-	if pkg == nil {
-		c.Undecided("proof-root-order", "v1", "", "package consensus does not load")
-		return
-	}
-	info := pkg.TypesInfo
 	// the loop is identified by what it does (chooses between SumPair(h, root) and SumPair(root, h) by a condition that
-	// compares the loop index), wherever a refactoring has put it
+	// compares the loop index with a threshold), wherever a refactoring has put it — any package of the module
+	found := false
+	for _, pkg := range c.P.Pkgs {
+		if c07ProofRootOrderIn(c, pkg) {
+			found = true
+		}
+	}
+	if !found {
+		c.Undecided("proof-root-order", "v1", "", "no loop choosing between SumPair(h, root) and SumPair(root, h) by the loop index and a subtree-height threshold found in the module")
+	}
+	c.Min("proof-root-order", 7)
+}
+
+func c07ProofRootOrderIn(c *Ctx, pkg *packages.Package) bool {
+	info := pkg.TypesInfo
 	var fds []*ast.FuncDecl
 	for _, f := range pkg.Syntax {
 		for _, d := range f.Decls {
@@ -207,10 +216,7 @@ func c07ProofRootOrder(c *Ctx) {
 			return true
 		})
 	}
-	if !found {
-		c.Undecided("proof-root-order", "v1", "", "no loop choosing between SumPair(h, root) and SumPair(root, h) by the loop index found in package consensus")
-	}
-	c.Min("proof-root-order", 7)
+	return found
 }
 
 type bitCmpEval struct {
